@@ -15,12 +15,20 @@ CPP_RUNTIME_NAMES = frozenset(
 )
 
 
+CPP_MEMBER_NAMES = frozenset(
+    [t + w + "_t" for t in ("int", "uint") for w in ("8", "16", "32", "64")] +
+    ["size_t", "prophy", "std", "encoded_byte_size"]
+)
+""" what the generated classes use unqualified inside their own scope: a member of that name would capture it """
+
+
 def check_cpp_names(nodes, _included=None, generated=None):
     """
     Names the generated C++ resolves in its own scopes first: a schema name equal to one of them compiles and then means
-    something else (another array extent in encode, another field type, another enumerator in print). A member named like a
-    type of its own struct (or like the struct) changes the meaning of that name in the C++ class scope.
-    Each included file is walked once. `generated` matches the names a generator invents inside the classes it writes.
+    something else (another array extent in encode, another field type, another enumerator in print, another discriminator
+    value). A member named like a type of its own struct (or like the struct) changes the meaning of that name in the C++
+    class scope. Each included file is walked once. `generated` matches the names a generator nests into the classes it
+    writes: types and members must not take them (constants and enumerators may).
     """
     _included = set() if _included is None else _included
     for node in nodes:
@@ -33,8 +41,11 @@ def check_cpp_names(nodes, _included=None, generated=None):
         if isinstance(node, model.Enum):
             names += [member.name for member in node.members]
         for name in names:
-            if name in CPP_RUNTIME_NAMES or generated and re.match(generated, name):
+            """ a union holds `enum _discriminator { discriminator_<arm> = ... }` next to the discriminator expressions """
+            if name in CPP_RUNTIME_NAMES or re.match(r"discriminator_\w", name):
                 raise GenerateError("'{}' is a name of the C++ runtime: the generated C++ would not mean the schema".format(name))
+        if generated and not isinstance(node, model.Constant) and re.match(generated, node.name):
+            raise GenerateError("'{}' is a name of the C++ runtime: the generated C++ would not mean the schema".format(node.name))
         if isinstance(node, (model.Struct, model.Union)):
             types = set(member.type_name for member in node.members) | set([node.name])
             for member in node.members:
@@ -43,7 +54,7 @@ def check_cpp_names(nodes, _included=None, generated=None):
                 if isinstance(definition, model.Enum) and definition.members:
                     types.add(definition.members[0].name)
             for member in node.members:
-                if member.name in types or member.name in CPP_RUNTIME_NAMES:
+                if member.name in types or member.name in CPP_MEMBER_NAMES or generated and re.match(generated, member.name):
                     raise GenerateError("member '{}' of {} is named like a type of that scope or a name of the C++ runtime"
                                         .format(member.name, node.name))
 
